@@ -273,29 +273,59 @@ def materialise(dirs, files, sources=None):
 _SPELLING = [0]
 
 
-def spell_paths(root_path: str, module_path: str):
+def spelling_index(root, mp, kw) -> int:
+    """which spelling a scan uses: a fixed function of its arguments, so that a replay spells the paths the same way"""
+    import zlib
+    return zlib.crc32(repr((root, tuple(mp), sorted((k, repr(v)) for k, v in kw.items()))).encode()) % 12
+
+
+SPELLING_NAMES = {1: "module_path with trailing separator", 3: "pathlib.Path objects", 5: "both with trailing separator", 7: "'.' segment and doubled separator in module_path",
+                  9: "'x/../x' detours in both", 11: "relative to the current directory"}
+
+
+def spell_paths(root_path: str, module_path: str, k: int = 0):
     """Equivalent spellings of the two path arguments, rotated deterministically: plain strings, a trailing separator on
-    module_path, pathlib.Path objects, trailing separators on both."""
+    module_path, pathlib.Path objects, trailing separators on both, a '.' segment, a 'x/../x' detour, doubled separators,
+    and paths relative to the current directory.  -> (root_path, module_path, directory to make current or None)"""
     import pathlib
-    _SPELLING[0] += 1
-    k = _SPELLING[0] % 6
     if k == 1:
-        return root_path, module_path + os.sep
+        return root_path, module_path + os.sep, None
     if k == 3:
-        return pathlib.Path(root_path), pathlib.Path(module_path)
+        return pathlib.Path(root_path), pathlib.Path(module_path), None
     if k == 5:
-        return root_path + os.sep, module_path + os.sep
-    return root_path, module_path
+        return root_path + os.sep, module_path + os.sep, None
+    if k == 7:
+        # a '.' segment and a doubled separator
+        d, b = os.path.split(module_path)
+        return root_path, d + os.sep + "." + os.sep + os.sep + b, None
+    if k == 9:
+        # down and up again: .../x/../x
+        d, b = os.path.split(module_path)
+        dr, br = os.path.split(root_path)
+        return dr + os.sep + br + os.sep + ".." + os.sep + br, module_path + os.sep + ".." + os.sep + b, None
+    if k == 11:
+        # relative to the directory that holds the root directory
+        base = os.path.dirname(root_path)
+        return os.path.relpath(root_path, base), os.path.relpath(module_path, base), base
+    return root_path, module_path, None
 
 
 def real_scan(base, root, mp, **kw):
     """-> ('OK', modules, edges) | ('ERR', type name)."""
     from pytestarch import get_evaluable_architecture
+    cwd = None
     try:
-        rp, mpp = spell_paths(os.path.join(base, root), os.path.join(base, *mp))
+        k = spelling_index(root, mp, kw)
+        rp, mpp, chdir = spell_paths(os.path.join(base, root), os.path.join(base, *mp), k)
+        if chdir is not None:
+            cwd = os.getcwd()
+            os.chdir(chdir)
         arch = get_evaluable_architecture(rp, mpp, **kw)
     except Exception as e:  # noqa: BLE001
-        return ("ERR", type(e).__name__ + ": " + str(e)[:200], None)
+        return ("ERR", type(e).__name__ + ": " + str(e)[:200] + (f" [paths spelt: {SPELLING_NAMES[k]}]" if k in SPELLING_NAMES else ""), None)
+    finally:
+        if cwd is not None:
+            os.chdir(cwd)
     ns, es = rules.observe(arch, [], [])
     return ("OK", sorted(ns), sorted(set(es)), arch)
 
